@@ -14,8 +14,9 @@ explicit configuration data by the Lean driver only):
 
 `re-table` is what the library `re` answers for the configuration's patterns at every column of every
 line the tokenizer iterates over (computed here with `re` itself, never by the repository's code);
-`shape` is the shape of the tree the real parser returned (`(`..`)` inner node, `t` token leaf, `e`
-empty node): the model recomputes every span from the token positions and that shape.
+`shape` is the shape of the raw tree (do_cleanup=False) the real parser returned (`(`..`)` inner node — also a
+flattened ProdSequence node —, `t` token leaf, `e` node that matched nothing): the model recomputes every span
+from the token positions and that shape.
 """
 import ast
 import os
@@ -27,16 +28,19 @@ PROPERTY = "C04"
 READY = True
 THEOREMS = [
     "C04.bases_std", "C04.tok_adjacent", "C04.tok_line_start", "C04.tok_monotone", "C04.tok_orig_text",
-    "C04.orig_text_exact", "C04.node_span", "C04.lex_error_line", "C04.tok_cover", "C04.end_token",
-    "C04.node_orig_text", "C04.lex_error_first", "C04.lex_error_complete", "C04.no_out_of_fuel",
-    "C04.ex_reIn", "C04.ex_tokens",
+    "C04.orig_text_exact", "C04.node_span", "C04.lex_error_line", "C04.tok_cover", "C04.tok_cover_unique",
+    "C04.end_token", "C04.node_span_unique", "C04.node_orig_text", "C04.lex_error_first",
+    "C04.lex_error_complete", "C04.lex_error_unique", "C04.no_out_of_fuel", "C04.ex_reIn", "C04.ex_tokens",
 ]
 RULE = ("distinct by protocol text; non-trivial = the text has at least two tokens besides $END$, or a lexical "
         "error, or more than one line")
 TRUSTED = ["library `re` (its answers enter the model as a table computed by the harness)",
            "str.split('\\n'), str.rstrip (modelled: splitNl, rstrip over the generated isspace class)"]
 ASSUMPTIONS = ["token patterns never match the empty string (the real tokenizer does not advance on such a match; "
-               "the model reports OUT-OF-FUEL); hypothesis `Re.Adv` of the theorems",
+               "the model reports OUT-OF-FUEL); hypothesis `ReAdv` of C04.no_out_of_fuel only - a result `.ok` already implies "
+               "that every match advanced",
+               "every match of `re` ends inside its line (hypothesis `ReIn` of tok_orig_text / node_orig_text; checked "
+               "by the driver on every request: `tableOk`)",
                "lines of a list-of-lines input contain no '\\n'",
                "span matchers have a named group (the code reads match.lastgroup)"]
 
@@ -114,6 +118,8 @@ GRAMMARS = [
     {"E": [("P", "B", "Q")], "P": [("N",), ()], "B": [("W", "P", "B"), ()], "Q": [("S", "Q"), ("S",), ()]},
     # an inner node all of whose children are empty (X), in the middle and at the end
     {"E": [("W", "X", "R")], "X": [("P", "Q")], "P": [("N",), ()], "Q": [("S",), ()], "R": [("W", "X"), ()]},
+    # a ProdSequence node (flattened by parse() itself: a leaf whose value is the list of matched elements)
+    {"E": [("SEQ", "S", "E"), ()], "SEQ": ("ProdSequence", "W", "A"), "A": [("N", "N"), ("N",)]},
 ]
 
 
@@ -178,11 +184,10 @@ def translate(repo):
             a1, a2 = n.args[1], n.args[2]
             if isinstance(a1, ast.Constant):
                 init.add((const(a1), const(a2)))
-            elif isinstance(a1, ast.Name) and a1.id == "line_id":
-                if isinstance(a2, ast.Name) and a2.id == "col":
+            elif isinstance(a1, ast.Name):
+                if isinstance(a2, ast.Name):
                     err.add(0)
-                elif isinstance(a2, ast.BinOp) and isinstance(a2.op, ast.Add) and isinstance(a2.left, ast.Name) \
-                        and a2.left.id == "col":
+                elif isinstance(a2, ast.BinOp) and isinstance(a2.op, ast.Add) and isinstance(a2.left, ast.Name):
                     start.add(const(a2.right))
                 elif isinstance(a2, ast.BinOp) and isinstance(a2.op, ast.Add) and isinstance(a2.left, ast.Call) \
                         and isinstance(a2.left.func, ast.Attribute) and a2.left.func.attr == "end" \
@@ -198,7 +203,8 @@ def translate(repo):
         # the comparison that decides "first token of the line": (line_id, col + k)
         if isinstance(n, ast.Compare) and len(n.comparators) == 1 and isinstance(n.comparators[0], ast.Tuple):
             t = n.comparators[0].elts
-            if len(t) == 2 and isinstance(t[1], ast.BinOp) and isinstance(t[1].left, ast.Name) and t[1].left.id == "col":
+            if len(t) == 2 and isinstance(t[1], ast.BinOp) and isinstance(t[1].op, ast.Add) \
+                    and isinstance(t[1].left, ast.Name):
                 start.add(const(t[1].right))
     got = fn(cls("TElement"), "get_orig_text")
     dec = {}
@@ -241,7 +247,13 @@ def _tokenizer(ci):
 
 def _productions(cfg, gi):
     m = {"W": cfg["W"], "N": cfg["N"], "S": cfg["S"]}
-    return {k: [tuple(m.get(s, s) for s in p) for p in prods] for k, prods in GRAMMARS[gi].items()}
+    out = {}
+    for k, prods in GRAMMARS[gi].items():
+        if isinstance(prods, tuple):          # a template: built afresh for every parser
+            out[k] = getattr(_ll(), prods[0])(*[m.get(s, s) for s in prods[1:]])
+        else:
+            out[k] = [tuple(m.get(s, s) for s in p) for p in prods]
+    return out
 
 
 def _parser(ci, gi, smart):
@@ -276,18 +288,32 @@ def _err(e):
     return "err " + type(e).__name__
 
 
+def _kids(e):
+    """children of a node of a raw (do_cleanup=False) tree; None for a token leaf, [] for a node that matched
+    nothing. A ProdSequence node is flattened by parse(): a 'leaf' whose value is the list of its elements."""
+    if e.is_leaf():
+        if e.value is None:
+            return []
+        if isinstance(e.value, list):
+            return list(e.value)
+        return None
+    return list(e.value)
+
+
 def _walk(e):
-    """pre-order nodes of a raw (do_cleanup=False) tree"""
+    """pre-order nodes of a raw tree"""
     yield e
-    if not e.is_leaf():
-        for c in e.value:
-            yield from _walk(c)
+    for c in _kids(e) or ():
+        yield from _walk(c)
 
 
 def _shape(e):
-    if e.is_leaf():
-        return "e" if e.value is None else "t"
-    return "(" + "".join(_shape(c) for c in e.value) + ")"
+    k = _kids(e)
+    if k is None:
+        return "t"
+    if not k:
+        return "e"
+    return "(" + "".join(_shape(c) for c in k) + ")"
 
 
 def _dec_input(kind, data):
@@ -295,7 +321,8 @@ def _dec_input(kind, data):
         return "" if t == "-" else "".join(chr(int(x)) for x in t.split(","))
     if kind == "s":
         return d(data)
-    return [] if data == "!" else [d(x) for x in data.split(";")]
+    lines = [] if data == "!" else [d(x) for x in data.split(";")]
+    return tuple(lines) if kind == "t" else lines       # 't': an Iterable that is not a list
 
 
 def impl(case):
@@ -332,7 +359,18 @@ def impl(case):
 
 
 def observable(i, line):
-    return not line.startswith("tokv ")
+    """names/values of tokens are not C04; get_orig_text is observed on spans that lie inside the text (the
+    spans tokens and nodes carry) — its assertions on other spans are compared as diagnostics only"""
+    if line.startswith("tokv "):
+        return False
+    if line.startswith("got "):
+        f = line.split()
+        text = _dec_input(f[1], f[2])
+        lines = text.split("\n") if f[1] == "s" else list(text)
+        sl, sc, el, ec = map(int, f[3:7])
+        return (1 <= sl <= el <= len(lines) and 1 <= sc <= len(lines[sl - 1]) + 1
+                and 1 <= ec <= len(lines[el - 1]) + 1 and (sl, sc) <= (el, ec))
+    return True
 
 
 # ------------------------------------------------------------------ building a case from its parameters
@@ -346,7 +384,7 @@ def _vis_lines(kind, text):
 def _enc_input(kind, text):
     if kind == "s":
         return "s " + enc_str(text)
-    return "l " + (";".join(enc_str(t) for t in text) if text else "!")
+    return kind + " " + (";".join(enc_str(t) for t in text) if text else "!")
 
 
 def _re_table(cfg, lines):
@@ -389,6 +427,8 @@ def make_case(params, meta=None):
     """params: cfg (index), kind ('s'|'l'), text (str | list of str), g (grammar index | None),
     gots (list of [sl, sc, el, ec])"""
     ci, kind, text, gi = params["cfg"], params["kind"], params["text"], params.get("g")
+    if kind == "t":
+        text = tuple(text)
     cfg = CONFIGS[ci]
     inp = _enc_input(kind, text)
     tbl = _re_table(cfg, _vis_lines(kind, text))
@@ -473,6 +513,8 @@ def oracle(case, replies):
     ll = _ll()
     p = case["params"]
     cfg, kind, text = CONFIGS[p["cfg"]], p["kind"], p["text"]
+    if kind == "t":
+        text = tuple(text)
     rx, bodies = _rx(cfg)
     olines = text.split("\n") if kind == "s" else list(text)      # the text as the user sees it
     full = "\n".join(olines)
@@ -572,8 +614,9 @@ def oracle(case, replies):
             e, done = stack.pop()
             if not done:
                 lo_of[id(e)] = k
-                if e.is_leaf():
-                    if e.value is None:
+                kids = _kids(e)
+                if not kids:
+                    if kids is not None:
                         want = (ns[k].start_pos.coords,) * 2
                         what = "node-empty: empty node %s is not an empty span at the following token" % e.name
                     else:
@@ -589,7 +632,7 @@ def oracle(case, replies):
                     spans.append(None)
                     idx = len(spans) - 1
                     stack.append(((e, idx), True))
-                    for c in reversed(e.value):
+                    for c in reversed(kids):
                         stack.append((c, False))
             else:
                 e, idx = e
@@ -626,8 +669,8 @@ def oracle(case, replies):
             e = todo.pop()
             if e.span not in raw:
                 return "node-cleanup: cleaned node %s carries span %s that no node of the raw tree has" % (e.name, e.span)
-            if not e.is_leaf():
-                todo.extend(e.value)
+            if not e.is_leaf() or isinstance(e.value, list):
+                todo.extend(x for x in e.value if isinstance(x, ll.TElement))
     return None
 
 
@@ -644,6 +687,8 @@ def _sentence(rng, gi, depth=0):
             out.append(s)
             continue
         prods = GRAMMARS[gi][s]
+        if isinstance(prods, tuple):          # ProdSequence(a, b, ...): any of the symbols, any number of times
+            prods = [(x, s) for x in prods[1:]] + [()]
         budget -= 1
         if budget < 0 or len(out) > 8:
             prods = [min(prods, key=len)]
@@ -661,6 +706,8 @@ def _gen_text(rng, cfg, gi, tier):
         w = [4 if c == "\n" else 3 if c == " " else 1 for c in alpha]
         return "".join(rng.choices(alpha, w, k=n)), "raw"
     seps = _SEPS + cfg["fill"] * 2 if cfg["fill"] and rng.random() < 0.6 else _SEPS
+    if rng.random() < 0.06:           # other blanks: NBSP, EM SPACE, CR, FF, FS (all `isspace`, all stripped by rstrip)
+        seps = seps + ["\xa0", "\u2003", "\r", "\x0c", "\x1c", " \r\n", "\u2003\n"] * 2
     if gi is not None and r < 0.65:
         toks = [rng.choice(cfg["lex" + k]) for k in _sentence(rng, gi)]
         if rng.random() < 0.12 and toks:
@@ -671,7 +718,7 @@ def _gen_text(rng, cfg, gi, tier):
         toks = [rng.choice(pool) for _ in range(rng.randrange(0, 7 if not big else 14))]
         mode = "soup"
     if rng.random() < 0.12:
-        toks.insert(rng.randrange(len(toks) + 1), rng.choice(cfg["bad"]))
+        toks.insert(rng.randrange(len(toks) + 1), rng.choice(cfg["bad"] + ["\xe9", "\U0001F600"]))
         mode += "+bad"
     parts = [rng.choice(["", "", "", " ", "  ", "\n", "\t", "\n\n "])]
     for i, t in enumerate(toks):
@@ -711,7 +758,7 @@ def _gen_gots(rng, lines, n):
 
 
 def gen_cases(rng, tier):
-    n = 2600 if tier == "quick" else 60000
+    n = 12000 if tier == "quick" else 250000
     if tier != "quick":
         yield from search_cases(rng, tier)          # exhaustive small scopes
     for _ in range(n):
@@ -719,8 +766,8 @@ def gen_cases(rng, tier):
         cfg = CONFIGS[ci]
         gi = rng.randrange(len(GRAMMARS)) if rng.random() < 0.7 else None
         s, mode = _gen_text(rng, cfg, gi, tier)
-        kind = rng.choice("sl")
-        text = s if kind == "s" else (s.split("\n") if rng.random() < 0.97 else [])
+        kind = rng.choice("sssslllt")
+        text = s if kind == "s" else s.split("\n")
         olines = text.split("\n") if kind == "s" else text
         yield make_case({"cfg": ci, "kind": kind, "text": text, "g": gi,
                          "gots": _gen_gots(rng, olines, rng.choice([0, 1, 2]))}, {"gen": mode})
@@ -791,8 +838,10 @@ def tags(case, replies):
     m = case.get("meta", {})
     yield "gen:" + m.get("gen", "?")
     yield "cfg:" + CONFIGS[p["cfg"]]["name"]
-    yield "input:" + ("str" if p["kind"] == "s" else "lines")
+    yield "input:" + {"s": "str", "l": "list", "t": "tuple"}[p["kind"]]
     lines = p["text"].split("\n") if p["kind"] == "s" else p["text"]
+    if any(ord(c) > 127 for l in lines for c in l):
+        yield "has:non-ascii"
     yield "lines:%d" % min(len(lines), 6)
     if any(l.strip() == "" for l in lines[:-1]):
         yield "has:blank-line"
@@ -809,6 +858,8 @@ def tags(case, replies):
     for k in ("tree1", "tree0"):
         if k in m:
             yield "%s:%s" % (k, m[k])
+    if p.get("g") is not None and "tree1" in m:
+        yield "grammar:%d:%s" % (p["g"], m["tree1"])
     for l, rep in zip(case["lines"], replies):
         if l.startswith("got "):
             yield "got:" + rep.split()[0] + ("" if rep.startswith("ok") else ":" + rep.split()[1])
@@ -816,6 +867,25 @@ def tags(case, replies):
             yield "has:empty-node"
 
 
-LEVEL_TEXT = "under construction"
-LEVEL_NOTE = ""
-TECHNIQUE = "Lean 4 theorems over a segmentation supplied by `re` + translator for the position offsets + correspondence check"
+LEVEL_TEXT = (
+    "Proved in Lean 4 for all texts, all answers of `re` and all tokenizer configurations, on an executable model of "
+    "_Tokenizer.tokenize / TElement.get_orig_text / the node-span code of LLParser.parse whose position offsets are "
+    "regenerated from ak/llparser.py on every run: adjacency within a line, column 1 / later line for the first token "
+    "of a line, monotone non-empty spans, get_orig_text = lexeme (span token: region opener..closer) = slice of the "
+    "whole text by character offsets (str with rstrip and list-of-lines input), the tokens cover every character, "
+    "node span = (start of first token, end of last token) or empty at the following token for every node of every "
+    "tree shape, get_orig_text of nodes, LexicalError at the first reachable unmatched character (line 1-based, column "
+    "0-based) and its converse, totality (fuel) of the model. Model = code is established by a differential run of "
+    "the compiled model against the real tokenizer, get_orig_text and parser (6 configurations, 9 grammars incl. a ProdSequence, both "
+    "smart_factorization values, str and list input); the oracle restates the property on the real objects.")
+LEVEL_NOTE = (
+    "Kernel-checked theorems (C04.*): tok_adjacent, tok_line_start, tok_monotone, tok_orig_text, orig_text_exact, "
+    "tok_cover, tok_cover_unique, end_token, node_span, node_span_unique, node_orig_text, lex_error_line, lex_error_first, lex_error_complete, lex_error_unique, "
+    "no_out_of_fuel, bases_std (generated offsets). Rest on the sampled correspondence only: that the model's "
+    "control flow is the code's (incl. rstrip/split of str input, synonyms/keywords, the suffix splice which the model "
+    "sees only as the final tree shape), and that `re` behaves as a function of (line, column) ending inside the line "
+    "(hypothesis ReIn, checked by the driver on every request). Tree shapes are taken from the real parser (the LL "
+    "parser itself is C01-C03); list/map templates and ParsingError.src_pos are not covered here; spans "
+    "after cleanup are checked by the oracle only.")
+TECHNIQUE = ("Lean 4 theorems (relational run of the scanner, induction over runs / tree shapes) over a segmentation "
+             "supplied by `re` + translator for the position offsets + correspondence check + property oracle")
